@@ -844,7 +844,8 @@ class AutoSerialize:
 
         # Handle list/tuple containers
         if isinstance(value, (list, tuple)):
-            group.attrs["_container_type"] = type(value).__name__
+            # subclasses (torch.Size, namedtuples, ...) are stored as the plain list / tuple they are
+            group.attrs["_container_type"] = "list" if isinstance(value, list) else "tuple"
             # Fast-path: homogeneous numeric scalars → single ndarray
             try:
                 is_all_numeric = len(value) > 0 and all(
